@@ -1,4 +1,5 @@
 import SimbodyProofs.C19_lemmas
+import SimbodyProofs.C22
 import Mathlib.Algebra.Order.Ring.Unbundled.Rat
 /-!
 # C19 — property theorems: the step / report / final-time contract
@@ -142,9 +143,11 @@ theorem time_monotone (hi : Inv o s0) (hl : LegalRun o s0 ops) :
     have p := stepTo_post hi hl h
     exact ⟨p.mono, p.adv_mono, p.time_le_adv⟩) ops s0 hi hl
 
-/-- the advanced state never passes the scheduled-event time of the call nor the final time -/
+/-- the advanced state never passes the final time, and never MOVES past the scheduled-event time of the call: after the
+call it is at or before the scheduled time, or it did not move (the caller scheduled a time behind a state the integrator
+had already advanced to — `TimeStepper::stepTo(t)` with `t` below the advanced time does that, legally) -/
 theorem advanced_never_passes_sched_or_final (hi : Inv o s0) (hl : LegalRun o s0 ops) :
-    ∀ e ∈ trace o s0 ops, e.after.tAdv ≤ e.sched ∧ e.after.tAdv ≤ o.finalTime :=
+    ∀ e ∈ trace o s0 ops, (e.after.tAdv ≤ e.sched ∨ e.after.tAdv = e.before.tAdv) ∧ e.after.tAdv ≤ o.finalTime :=
   session_all _ (fun _ _ _ _ _ _ _ hi hl h => by
     have p := stepTo_post hi hl h
     exact ⟨p.adv_sched, p.adv_final⟩) ops s0 hi hl
@@ -230,12 +233,12 @@ theorem eos_at_most_once (hi : Inv o s0) (hl : LegalRun o s0 ops)
       | badOracle s' => simp
 
 /-- at a ReachedEventTrigger return the state handed out is the before-state at `tLow`, the advanced state
-sits at `tHigh`, and neither the scheduled time of the call, nor the final time, nor the report time that was
+sits at `tHigh`, and neither the scheduled time of the call (unless the caller placed it behind the advanced state), nor the final time, nor the report time that was
 pending when the internal step was taken (`tRep`) lies strictly inside the window -/
 theorem no_time_inside_event_window (hi : Inv o s0) (hl : LegalRun o s0 ops) :
     ∀ e ∈ trace o s0 ops, e.st = .reachedEventTrigger →
       e.after.time = e.after.tLow ∧ e.after.tAdv = e.after.tHigh ∧ e.after.tLow < e.after.tHigh ∧
-      ¬ (e.after.tLow < e.sched ∧ e.sched < e.after.tHigh) ∧
+      (e.after.tAdv ≤ e.sched → ¬ (e.after.tLow < e.sched ∧ e.sched < e.after.tHigh)) ∧
       ¬ (e.after.tLow < o.finalTime ∧ o.finalTime < e.after.tHigh) ∧
       ¬ (e.after.tLow < e.after.tRep ∧ e.after.tRep < e.after.tHigh) :=
   session_all _ (fun _ _ _ _ _ _ _ hi hl h => by
@@ -322,6 +325,48 @@ theorem time_monotone_session :
 
 end Properties
 
+/-! ## The oracle contract is what the code of `takeOneStep` guarantees (link to the C22 model of that code) -/
+section OracleContract
+variable {K : Type} [Field K] [LinearOrder K] [IsStrictOrderedRing K]
+
+/-- **ansOK_of_takeOneStep** (no event): the trial end time chosen by the 0.95 / 1.001 rule of `takeOneStep`
+(`C22.chooseT1`, literals re-extracted from the source: `C22.gen_literals_field`) satisfies the oracle contract assumed
+by all theorems above, whenever the machine calls `takeOneStep` (`tAdv < tMax`, shown in `phase_adv`) with a positive
+step size. -/
+theorem ansOK_of_takeOneStep (o : Opts K) (report sched c095 c1001 h x : K) (s : St K)
+    (hh : 0 < h) (hc : 1 ≤ c1001) (hm : s.tAdv < tMaxOf o report sched) :
+    ansOK o report sched s ⟨C22.chooseT1 c095 c1001 s.tAdv h (tMaxOf o report sched), false, x⟩ = true := by
+  obtain ⟨h1, h2⟩ := C22.chooseT1_contract c095 c1001 s.tAdv h (tMaxOf o report sched) hh hm
+  simp [ansOK, h1, h2 hc]
+
+/-- **ansOK_of_takeOneStep** (event): if the event part of `takeOneStep` (`C22.localize`, any trigger functions)
+reports a window for that trial step, then `(tHigh, event, tLow)` satisfies the oracle contract: window inside the step,
+`tHigh ≤ tMax`, report time not strictly inside — so `advanced_never_passes_sched_or_final` and the window clauses follow
+from the modelled code, not from an assumption. -/
+theorem ansOK_of_takeOneStep_event (o : Opts K) (report sched c095 c1001 h : K) (s : St K)
+    (tenth inf accTs mw : K) (infos : Nat → C22.TrigInfo K) (eval : K → Nat → K) (n fuel : Nat) (r : C22.LocResult K)
+    (hh : 0 < h) (hc : 1 ≤ c1001) (hm : s.tAdv < tMaxOf o report sched)
+    (hmw : 0 < mw) (ht : 0 < tenth) (ht2 : 2 * tenth ≤ 1)
+    (hinf : C22.chooseT1 c095 c1001 s.tAdv h (tMaxOf o report sched) ≤ inf)
+    (hinf2 : C22.chooseT1 c095 c1001 s.tAdv h (tMaxOf o report sched) - s.tAdv ≤ inf)
+    (e : C22.localize tenth inf accTs infos eval n s.tAdv
+          (C22.chooseT1 c095 c1001 s.tAdv h (tMaxOf o report sched)) report mw fuel = .event r) :
+    ansOK o report sched s ⟨r.tHigh, true, r.tLow⟩ = true := by
+  obtain ⟨h1, h2⟩ := C22.chooseT1_contract c095 c1001 s.tAdv h (tMaxOf o report sched) hh hm
+  obtain ⟨l1, l2, l3, _, _, l6, _⟩ :=
+    C22.localize_spec tenth inf accTs infos mw eval report n s.tAdv _ fuel r h1 hmw ht ht2 hinf hinf2 e
+  have ha : s.tAdv < r.tHigh := lt_of_le_of_lt l1 l2
+  have hb : r.tHigh ≤ tMaxOf o report sched := le_trans l3 (h2 hc)
+  have hc' : ¬ (r.tLow < report ∧ report < r.tHigh) := l6
+  simp only [ansOK, Bool.and_eq_true, Bool.or_eq_true, decide_eq_true_eq, Bool.not_eq_true', Bool.and_eq_false_iff,
+    decide_eq_false_iff_not]
+  refine ⟨⟨ha, hb⟩, Or.inr ⟨⟨l1, l2⟩, ?_⟩⟩
+  by_cases q : r.tLow < report
+  · right; exact fun q2 => hc' ⟨q, q2⟩
+  · left; exact q
+
+end OracleContract
+
 /-! ## Transfer to the executable instantiation and non-vacuity -/
 
 /-- the driver runs the model at `T := Rat` with core Lean's order instances; Mathlib's `LinearOrder ℚ`
@@ -375,7 +420,7 @@ theorem legalRunB_sound (o : Opts T) : ∀ (ops : List (Op T)) (s : St T), legal
     | step r sc orc =>
       simp only [legalRunB, Bool.and_eq_true] at h
       obtain ⟨h1, h2⟩ := h
-      simp only [legalReq, Bool.and_eq_true, decide_eq_true_eq] at h1
+      simp only [legalReq, Bool.and_eq_true, Bool.or_eq_true, decide_eq_true_eq] at h1
       refine ⟨⟨h1.1.1, h1.1.2, h1.2⟩, ?_⟩
       cases hst : stepTo o r sc orc s with
       | ret st s' rest => rw [hst] at h2; exact ih _ h2
